@@ -833,13 +833,30 @@ def pattern_reg32(context, tree):
     return tree.value
 
 
-@thumb_isa.pattern("reg", "I16TOI32(reg)", size=0)
-@thumb_isa.pattern("reg", "U16TOI32(reg)", size=0)
-@thumb_isa.pattern("reg", "I16TOU32(reg)", size=0)
-@thumb_isa.pattern("reg", "U16TOU32(reg)", size=0)
+def extend(context, value, bits, signed):
+    """Extend the lower bits of the value into a new register"""
+    amount = context.new_reg(LowArmRegister)
+    context.emit(Mov3(amount, 32 - bits))
+    d = context.new_reg(LowArmRegister)
+    context.move(d, value)
+    context.emit(Lsl(d, amount))
+    if signed:
+        context.emit(Asr(d, amount))
+    else:
+        context.emit(Lsr(d, amount))
+    return d
+
+
+@thumb_isa.pattern("reg", "I16TOI32(reg)", size=8)
+@thumb_isa.pattern("reg", "I16TOU32(reg)", size=8)
 def pattern_i16_to_i32(context, tree, c0):
-    # TODO: do something?
-    return c0
+    return extend(context, c0, 16, True)
+
+
+@thumb_isa.pattern("reg", "U16TOI32(reg)", size=8)
+@thumb_isa.pattern("reg", "U16TOU32(reg)", size=8)
+def pattern_u16_to_i32(context, tree, c0):
+    return extend(context, c0, 16, False)
 
 
 @thumb_isa.pattern("reg", "I32TOI16(reg)", size=0)
@@ -851,13 +868,16 @@ def pattern_i32toi16(context, tree, c0):
     return c0
 
 
-@thumb_isa.pattern("reg", "I8TOI32(reg)", size=0)
-@thumb_isa.pattern("reg", "U8TOI32(reg)", size=0)
-@thumb_isa.pattern("reg", "I8TOU32(reg)", size=0)
-@thumb_isa.pattern("reg", "U8TOU32(reg)", size=0)
+@thumb_isa.pattern("reg", "I8TOI32(reg)", size=8)
+@thumb_isa.pattern("reg", "I8TOU32(reg)", size=8)
 def pattern_i8toi32(context, tree, c0):
-    # TODO: do something?
-    return c0
+    return extend(context, c0, 8, True)
+
+
+@thumb_isa.pattern("reg", "U8TOI32(reg)", size=8)
+@thumb_isa.pattern("reg", "U8TOU32(reg)", size=8)
+def pattern_u8toi32(context, tree, c0):
+    return extend(context, c0, 8, False)
 
 
 @thumb_isa.pattern("reg", "I32TOI8(reg)", size=0)
@@ -1014,6 +1034,11 @@ def pattern_cjmp_signed(context, tree, c0, c1):
     opnames = {"<": Bltw, ">": Bgtw, "==": Beqw, "!=": Bnew, ">=": Bgew}
     Bop = opnames[op]
     jmp_ins = Bw(no_label.name, jumps=[no_label])
+    if tree.name in ("CJMPI8", "CJMPI16"):
+        # Compare the values, not what is above them in the registers:
+        bits = 8 if tree.name == "CJMPI8" else 16
+        c0 = extend(context, c0, bits, True)
+        c1 = extend(context, c1, bits, True)
     context.emit(Cmp(c0, c1))
     context.emit(Bop(yes_label.name, jumps=[yes_label, jmp_ins]))
     context.emit(jmp_ins)
@@ -1034,6 +1059,11 @@ def pattern_cjmp_unsigned(context, tree, c0, c1):
     }
     Bop = opnames[op]
     jmp_ins = Bw(no_label.name, jumps=[no_label])
+    if tree.name in ("CJMPU8", "CJMPU16"):
+        # Compare the values, not what is above them in the registers:
+        bits = 8 if tree.name == "CJMPU8" else 16
+        c0 = extend(context, c0, bits, False)
+        c1 = extend(context, c1, bits, False)
     context.emit(Cmp(c0, c1))
     context.emit(Bop(yes_label.name, jumps=[yes_label, jmp_ins]))
     context.emit(jmp_ins)
